@@ -44,7 +44,8 @@ theorem rinv_init : RInv init := by
   constructor <;> intros <;> simp_all [init] <;> rfl
 
 macro "rinv_close" : tactic =>
-  `(tactic| (constructor <;> intros <;> (try dsimp only at *) <;> grind [upd, upd2, takeOf, zeroOf]))
+  `(tactic| (constructor <;> (try dsimp only) <;>
+      first | assumption | (intros; (try dsimp only at *); grind [upd, upd2, takeOf, zeroOf])))
 
 theorem rinv_invoke {s s' : St} {t : Tid} {op : GOp} (h : RInv s) (hs : invoke s t op = some s') : RInv s' := by
   obtain ⟨h1, h2, h3, h4, h5, h6, h7, h7n, h8, h9, h10, h11, h12, h13⟩ := h
